@@ -140,11 +140,17 @@ func (c Cache) Imports() []string {
 }
 
 // ConstLiteral returns the literal of an enum value, as understood by
-// Typescript and Dart. Contrary to [constant.Value.String], it does not
-// shorten long strings.
+// Typescript, Dart and SQL (for numbers). Contrary to [constant.Value.String],
+// it does not shorten long strings nor round floats.
 func ConstLiteral(val constant.Value) string {
-	if val.Kind() == constant.String {
+	switch val.Kind() {
+	case constant.String:
 		return strconv.Quote(constant.StringVal(val))
+	case constant.Float:
+		// the shortest decimal literal denoting the same float64 :
+		// String() keeps 6 digits, ExactString() prints a fraction
+		f, _ := constant.Float64Val(val)
+		return strconv.FormatFloat(f, 'g', -1, 64)
 	}
 	return val.String()
 }
@@ -158,7 +164,7 @@ func ReplaceEnums(ana *analysis.Analysis, content string) string {
 		typeName, varName, _ := strings.Cut(s, ".")
 		enum := ana.GetByName(typeName).(*analysis.Enum)
 		enumValue := enum.Get(varName)
-		value := enumValue.Const.Val().ExactString()
+		value := ConstLiteral(enumValue.Const.Val())
 		if val := enumValue.Const.Val(); val.Kind() == constant.String {
 			// SQL string literals use single quotes (double quotes denote identifiers)
 			value = "'" + strings.ReplaceAll(constant.StringVal(val), "'", "''") + "'"
